@@ -13,7 +13,7 @@ import tflsum
 import vlib
 
 FAMS = ["mixed_cpu", "ew_dag", "conv_chain", "diamond", "ew_dag", "single", "mixed_cpu", "lut_heavy", "conv_chain_big", "unsupported",
-        "ew_dag", "multi_custom"]
+        "ew_dag", "multi_custom", "multi_subgraph"]
 ELEM = {"int8": 1, "uint8": 1, "int16": 2, "int32": 4, "float32": 4, "int64": 8, "bool": 1, "float16": 2}
 AREA_COL = {"SRAM": "sram_memory_used", "DRAM": "dram_memory_used", "On-chip Flash": "on_chip_flash_memory_used",
             "Off-chip Flash": "off_chip_flash_memory_used"}
@@ -32,52 +32,98 @@ def alignment_of(job):
     return int(a[idx[-1] + 1]) if idx else 16   # argparse keeps the last occurrence
 
 
+CALL_OPTS = ("CondSubgraphIndex", "BodySubgraphIndex", "ThenSubgraphIndex", "ElseSubgraphIndex", "InitSubgraphIndex")
+
+
+def callees(op, nsg):
+    """subgraphs a control-flow operator (WHILE / IF / CALL_ONCE) invokes, in the order cond, body / then, else / init"""
+    o = op.get("options") or {}
+    if op["opcode"] not in ("WHILE", "IF", "CALL_ONCE"):
+        return []
+    return [o[k] for k in CALL_OPTS if isinstance(o.get(k), int) and 0 < o[k] < nsg]
+
+
 def build_case(r, art):
     s = art["summary"]
-    sg = s["subgraphs"][0]
+    sgs = s["subgraphs"]
     alloc = tflsum.offline_allocation(s)
     if alloc is None:
         return None, "no OfflineMemoryAllocation metadata"
     offs = alloc["offsets"]
-    ops = sg["operators"]
-    nops = len(ops)
-    # two time points per operator i: 2i and 2i+1.  A CPU kernel reads its inputs while it writes its
-    # outputs (inputs live through 2i+1, outputs from 2i).  An Ethos-U custom operator consumes its inputs
-    # and produces its outputs at a granularity the output graph does not expose: its inputs are counted
-    # live through 2i and its outputs from 2i+1; whether an output may reuse the bytes of an input of the
-    # SAME custom operator is decided per byte by C03 on the command stream, not here.
-    first, last = {}, {}
-    for ti in sg["inputs"]:
-        first[ti] = 0
-    for oi, op in enumerate(ops):
-        is_npu = op["opcode"] == "CUSTOM" and op["custom_code"] == "ethos-u"
-        t_in, t_out = (2 * oi, 2 * oi + 1) if is_npu else (2 * oi + 1, 2 * oi)
-        for ti in op["outputs"]:
-            first.setdefault(ti, t_out)
-            last[ti] = max(last.get(ti, t_out), 2 * oi + 1)
-        for ti in op["inputs"]:
-            if ti >= 0:
-                last[ti] = max(last.get(ti, t_in), t_in)
-                first.setdefault(ti, 0)
-    for ti in sg["outputs"]:
-        last[ti] = 2 * nops
-    special = set()
-    npu = [(oi, op) for oi, op in enumerate(ops) if op["opcode"] == "CUSTOM" and op["custom_code"] == "ethos-u"]
-    for oi, op in npu:
-        special.add(op["inputs"][2])
-        special.add(op["inputs"][3])
-    tens = []
-    for ti, t in enumerate(sg["tensors"]):
-        if ti < len(offs) and offs[ti] >= 0 and ti not in special and ti in first:
-            tens.append((offs[ti], nbytes(t), first[ti], last.get(ti, first[ti]), ti))
-    # scratch tensor(s)
+    base, b0 = [], 0
+    for g in sgs:
+        base.append(b0)
+        b0 += len(g["tensors"])
+    is_npu = lambda op: op["opcode"] == "CUSTOM" and op["custom_code"] == "ethos-u"
+    # Time points.  Per operator two points a < b: a CPU kernel reads its inputs while it writes its outputs (inputs
+    # live through b, outputs from a).  An Ethos-U custom operator consumes its inputs and produces its outputs at a
+    # granularity the output graph does not expose: its inputs are counted live through a and its outputs from b;
+    # whether an output may reuse the bytes of an input of the SAME custom operator is decided per byte by C03 on the
+    # command stream, not here.  A control-flow operator (WHILE / IF / CALL_ONCE) runs its callee subgraphs between
+    # its two points: its inputs are live through a, its outputs from b, every tensor of a callee lives strictly
+    # inside (a, b) - so exactly the caller tensors that are produced before and read after the operator are live
+    # together with the callee's tensors.  (How the kernel copies operator inputs/outputs to and from the callee's
+    # inputs/outputs is not modelled: no overlap between those is reported.)  Subgraph inputs live from the first
+    # point of their subgraph's invocation, subgraph outputs to a point after its last operator.
+    clock = [0]
+    tens, touched, scratch = [], [], []
+    walked = set()
+
+    def off_of(k, ti):
+        return offs[base[k] + ti] if base[k] + ti < len(offs) else -1
+
+    def walk(k, depth):
+        g = sgs[k]
+        walked.add(k)
+        ops = g["operators"]
+        first, last = {}, {}
+        start = clock[0]
+        for ti in g["inputs"]:
+            first[ti] = start
+        special = set()
+        for oi, op in enumerate(ops):
+            sub = callees(op, len(sgs)) if depth < 8 else []
+            a = clock[0]
+            clock[0] += 1
+            for c in sub:
+                walk(c, depth + 1)
+            b = clock[0]
+            clock[0] += 1
+            t_in, t_out = (a, b) if (is_npu(op) or sub) else (b, a)
+            for ti in op["outputs"]:
+                first.setdefault(ti, t_out)
+                last[ti] = max(last.get(ti, t_out), b)
+            for ti in op["inputs"]:
+                if ti >= 0:
+                    last[ti] = max(last.get(ti, t_in), t_in)
+                    first.setdefault(ti, start)
+            if is_npu(op):
+                special.add(op["inputs"][2])
+                special.add(op["inputs"][3])
+                sc = op["inputs"][2]
+                scratch.append((off_of(k, sc), g["tensors"][sc]["shape"][0] if g["tensors"][sc]["shape"] else 0))
+                for ti in op["inputs"][4:] + op["outputs"]:
+                    if off_of(k, ti) >= 0:
+                        touched.append((off_of(k, ti), nbytes(g["tensors"][ti]), a, b))
+        end = clock[0]
+        clock[0] += 1
+        for ti in g["outputs"]:
+            last[ti] = end
+        for ti, t in enumerate(g["tensors"]):
+            if off_of(k, ti) >= 0 and ti not in special and ti in first:
+                tens.append((off_of(k, ti), nbytes(t), first[ti], last.get(ti, first[ti]), ti, k))
+
+    walk(0, 0)
+    for k in range(1, len(sgs)):       # subgraphs no operator invokes: on their own, after everything else
+        if k not in walked:
+            walk(k, 0)
+    npu = [(k, op) for k, g in enumerate(sgs) for op in g["operators"] if is_npu(op)]
     has_scratch = 1 if npu else 0
     s_off = s_size = 0
-    fp_ends, touched = [], []
+    fp_ends = []
     if npu:
-        sc = npu[0][1]["inputs"][2]
-        s_off = offs[sc] if sc < len(offs) else -1
-        s_size = sg["tensors"][sc]["shape"][0] if sg["tensors"][sc]["shape"] else 0
+        s_off = max(abs(x[0]) for x in scratch)                 # every scratch tensor must sit at offset 0 ...
+        s_size = min(x[1] for x in scratch)                     # ... and each must span what the streams touch
         hw = artefacts.hw_args(r["job"])
         fouts = models.run("footprints", [hw + n["words"] for n in art["npu"] if n["words"] is not None])
         for o in fouts:
@@ -94,10 +140,6 @@ def build_case(r, art):
                 for q in range(0, len(segs), 3):
                     if segs[q] == 1:
                         fp_ends.append(segs[q + 2])
-        for oi, op in npu:
-            for ti in op["inputs"][4:] + op["outputs"]:
-                if ti < len(offs) and offs[ti] >= 0:
-                    touched.append((offs[ti], nbytes(sg["tensors"][ti]), 2 * oi, 2 * oi + 1))
     # reported size
     reported = None
     for f in glob.glob(os.path.join(r["job"]["out_dir"], "*_summary_*.csv")):
@@ -116,7 +158,8 @@ def build_case(r, art):
     flat += [len(fp_ends)] + fp_ends + [len(touched)]
     for t in touched:
         flat += list(t)
-    return (flat, tens, s_size, reported, len(npu)), None
+    if_branches = set(c for g in sgs for op in g["operators"] if op["opcode"] == "IF" for c in callees(op, len(sgs)))
+    return (flat, tens, s_size, reported, len(npu), if_branches), None
 
 
 def run(tier):
@@ -131,6 +174,11 @@ def run(tier):
     for i, al in enumerate([16, 32, 64, 128, 256] * (1 if tier == "quick" else 20)):
         jobs.append({"family": "mixed_cpu", "seed": "c12a-%d-%d" % (vlib.seed(), i),
                      "args": compiles.config_args(rng) + ["--cpu-tensor-alignment", str(al)], "capture": False})
+    # every kind of multi-subgraph model (WHILE / IF / CALL_ONCE: arena tensors in several subgraphs of the model)
+    import netgen
+    for rep in range(1 if tier == "quick" else 15):
+        for kind in sorted(set(netgen.MULTI_KINDS)):
+            jobs.append({"family": "multi_subgraph:" + kind, "seed": "c12m-%d-%d" % (vlib.seed(), rep), "args": compiles.config_args(rng), "capture": False})
     results = compiles.run_all(jobs, timeout=900)
     cases, meta, skipped = [], [], collections.Counter()
     for r in results:
@@ -148,9 +196,11 @@ def run(tier):
         meta.append((r, c))
     outs = models.run_parallel("check_arena", cases) if okx and cases else []
     programs, rejected, samples = 0, [], []
-    multi = 0
+    multi = multi_sg = 0
     for (r, c), o in zip(meta, outs):
         programs += 1
+        if any(t[5] for t in c[1]):
+            multi_sg += 1
         if c[4] > 1:
             multi += 1
         if o != [1]:
@@ -160,14 +210,17 @@ def run(tier):
                             "arena_tensors": [list(t[:4]) for t in c[1]][:8], "scratch_size": c[2], "reported": c[3]})
     res.cov.update({
         "programs": programs, "disagreements_checked": len(rejected), "samples": samples or [{"note": "none"}],
-        "with_several_npu_subgraphs": multi, "skipped": dict(skipped),
+        "with_several_npu_subgraphs": multi, "with_arena_tensors_in_several_model_subgraphs": multi_sg, "skipped": dict(skipped),
         "evaluations": len(results), "distinct_nontrivial": programs,
         "rule": "one program = the output model of one compilation; arena tensors, offsets (OfflineMemoryAllocation), live ranges "
                 "over the operator order of the output graph, scratch tensor, stream footprints and the summary CSV figure",
     })
     vlib.proof_coverage(res, b, ["tools/tflsum.py (metadata, tensor table) and the CSV parser", "coq/hw/Npu.v footprints for the scratch clause",
                                  "tensor byte size = product of shape x element size (what a TFLite runtime reserves)"])
-    res.assumptions += ["sampled compilations", "live range of a tensor = [producer index (0 for subgraph inputs), last consumer (end for outputs)]"]
+    res.assumptions += ["sampled compilations", "live range of a tensor = [producer index (0 for subgraph inputs), last consumer (end for outputs)]",
+                        "WHILE / IF / CALL_ONCE: the callee subgraphs' tensors live strictly inside the operator's slot, so they are live together "
+                        "with exactly the caller tensors produced before and read after the operator; the copies a control-flow kernel makes "
+                        "between operator inputs/outputs and callee inputs/outputs are not modelled (no overlap among those is reported)"]
     for r, c in rejected:
         # explain with a direct recomputation (diagnostic only)
         tens = c[1]
@@ -176,13 +229,23 @@ def run(tier):
             for j in range(i + 1, len(tens)):
                 a, bb = tens[i], tens[j]
                 if max(a[2], bb[2]) <= min(a[3], bb[3]) and not (a[0] + a[1] <= bb[0] or bb[0] + bb[1] <= a[0]):
-                    why = "tensors %d and %d overlap while both live" % (a[4], bb[4])
+                    why = "tensors %d and %d overlap while both live" % (a[4], bb[4]) if a[5] == bb[5] == 0 else \
+                        "tensors %d (subgraph %d) and %d (subgraph %d) overlap while both live" % (a[4], a[5], bb[4], bb[5])
         al = alignment_of(r["job"])
         if any(t[0] % al for t in tens):
             why = "offset not a multiple of the requested alignment %d" % al
         if any(t[0] + t[1] > c[3] for t in tens):
             why = "reported size %d below the extent of the plan" % c[3]
-        res.violation({"net": r.get("net_name"), "seed": r["job"]["seed"], "why": why.split(" %")[0][:50]},
+        key = {"net": r.get("net_name"), "seed": r["job"]["seed"], "why": why.split(" %")[0][:50]}
+        # diagnosis of one known defect: the tensors of IF branch subgraphs are never allocated (all published at offset 0)
+        pairs = [(a, bb) for i, a in enumerate(tens) for bb in tens[i + 1:]
+                 if max(a[2], bb[2]) <= min(a[3], bb[3]) and not (a[0] + a[1] <= bb[0] or bb[0] + bb[1] <= a[0])]
+        ifb = c[5]
+        if why.startswith("tensors") and pairs and ifb and all(a[5] in ifb or bb[5] in ifb for a, bb in pairs) and \
+                all(t[0] == 0 for t in tens if t[5] in ifb):
+            key = {"defect": "if_branch_tensors_unallocated", "net": r.get("net_name"), "seed": r["job"]["seed"]}
+            why = "every arena tensor of an IF branch subgraph is published at offset 0 (%s)" % why
+        res.violation(key,
                       {"job": r["job"], "tensors": [list(t) for t in tens], "scratch_size": c[2], "reported": c[3], "reason": why,
                        "replay_cmd": "cd /verif && /venv/bin/python tools/vela_worker.py %s/job.json" % r["job"]["out_dir"]},
                       "C12: %s (net %s)" % (why, r.get("net_name")))
